@@ -798,7 +798,9 @@ def _check_case(case: dict, table: dict) -> list:
 
     def key(p):
         n_ = _resolve_param_spec(p, cp)
-        return (n_["name"], n_.get("in", "query"))
+        if not isinstance(n_, dict):         # a node the loader would reject; when the code under test keeps the operation anyway the
+            return (None, None)              # comparison below reports it - the harness itself must not raise
+        return (n_.get("name"), n_.get("in", "query"))
     own_keys = [key(p) for p in case["params"]]
     exp_keys = [k_ for k_ in (key(p) for p in case["pathParams"]) if k_ not in own_keys] + own_keys
     got_keys = [(p.name, p.param_in) for p in op.parameters]
